@@ -14,8 +14,11 @@
 (*   - the property monitor of ReqResp.tla fed with everything the users   *)
 (*     do and see.                                                         *)
 (*                                                                         *)
-(* pending_dials is a MAP with one slot per peer exactly as in the code;   *)
-(* with "d9" \in Fixed it is the proposed repair (a queue per peer).       *)
+(* pending_dials is a queue of request contexts per peer ("d9" \in Fixed,   *)
+(* the code since /repo e9eba69).  Without "d9" it is the one-slot MAP the  *)
+(* code had before: an insert replaces the stored request, which is tagged  *)
+(* in kf; that variant is kept for the negative self-test (TLC must find    *)
+(* the lost request).                                                      *)
 (*                                                                         *)
 (* Abstractions: a request opens at most one substream in its life, so the *)
 (* substream id is the request id; connections are not numbered, instead   *)
@@ -49,7 +52,7 @@ VARIABLES
   \* RequestResponseProtocol
   inpeers,   \* DOMAIN of `peers`
   active,    \* peer -> set of request ids (peers[p].active)
-  pdial,     \* peer -> sequence of request ids (pending_dials; at most one unless repaired)
+  pdial,     \* peer -> sequence of request ids (pending_dials; at most one in the pre-e9eba69 variant)
   pout,      \* set of request ids whose substream is being opened (pending_outbound)
   fut,       \* request id -> cancel signalled  (pending_inbound: request written, waiting)
   cancels,   \* set of request ids         (pending_outbound_cancels)
@@ -395,7 +398,7 @@ MonOK == mon.bad = ""
 \* nothing is in flight was lost on a path tagged as a known defect
 Stuck == UNION {ToSet(pdial[p]) : p \in wedged}     \* waiting for a dial the manager will never conclude
 QuiesceOK == Quiescent => Unsettled(mon) \subseteq (kf \cup Stuck)
-\* the untagged version - violated by the unrepaired model (selftest: TLC must find D9)
+\* the untagged version: holds for the current code, violated by the one-slot variant (selftest)
 QuiesceStrict == Quiescent => Unsettled(mon) = {}
 \* bookkeeping of the protocol is exact when nothing is in flight
 BooksOK == Quiescent => /\ pout = {} /\ cancels = {}
